@@ -348,6 +348,19 @@ empty @is_you(int x) {
 }''', [['1'], ['-3']]),
 ]
 
+MISC += [
+    # zero-initialised global arrays of every element type, each followed by another global: every element is written, then
+    # the neighbours are read back
+    ('global_arrays_sized', '''string names[5]; int after_names = 101; bool flags[11]; byte after_flags = 102; byte buf[5]; int after_buf = 103; int tab[5]; int after_tab = 104;
+const string K = "k"; string last[2]; byte level = 7; int after_level = 105;
+empty @is_you(int n) {
+  for (int i = 0; i < 5; i += 1) { names[i] = "nm"; buf[i] = 255; tab[i] = 0 - 1; } for (int j = 0; j < 11; j += 1) { flags[j] = true; } last[1] = K; last[0] = "zz";
+  level += 10; level = (level * 3) is byte; level -= (n is byte);
+  write(after_names); write(after_flags is int); write(after_buf); write(after_tab); write(after_level); write(' ');
+  write(names[4]); write(names.length); write(flags[10]); write(flags.length); write(buf[4] is int); write(tab[4]); write(last[1]); write(last[0]); write(level is int);
+}''', [['1'], ['200']]),
+]
+
 # ------------------------------------------------------------------------------------------------ enumerated expression trees
 TREE_LEAVES = ['a', 'gi', 'gb', 'id(b)', 'ar[1]', 'GA[0]', '7', 's.length', 'bump()']
 TREE_OPS = ['+', '-', '*']
